@@ -102,7 +102,17 @@
 #include <openssl/pem.h>
 #define private public
 #define protected public
+#include "iora/network/dns_client.hpp"
+#include "iora/network/transport_impl.hpp"
+#include "iora/parsers/http_message.hpp"
+#include "iora/parsers/json.hpp"
+// Every receiveSync call WRITTEN IN http_client.hpp (the receive loop of executeRequest, the residual-data probe) is counted per
+// attempt of the requesting thread; everything http_client.hpp includes has been included above, so only its own text is affected.
+static void c17NoteRecv(long long timeoutMs);
+#define receiveSync(a, b, c, d) \
+  receiveSync((c17NoteRecv(std::chrono::duration_cast<std::chrono::milliseconds>(d).count()), (a)), (b), (c), (d))
 #include "iora/network/http_client.hpp"
+#undef receiveSync
 #undef private
 #undef protected
 #include "common/fake_engine.hpp"
@@ -117,6 +127,7 @@ using vh::Bytes;
 static std::atomic<long long> g_voff{0};          // ns added by warps
 static std::atomic<long long> g_scale{50};        // virtual time runs this much slower than real time
 static std::atomic<bool> g_wantTimeout{false};    // the current attempt can only end by a time-out: advance the clock
+static std::atomic<bool> g_manualClock{false};    // `contend`: the virtual clock moves ONLY when the operation advances it
 static std::atomic<long long> g_warps{0};
 static std::atomic<long long> n_clockwait{0}, n_nanosleep_skipped{0}, n_connect_seen{0}, n_connect_refused{0},
   n_connect_blackholed{0}, n_send_seen{0};
@@ -198,6 +209,13 @@ struct ReqCtx
   long long episodeStartReal = 0;
   long long stalls = 0;
   char curCls = 'K';         // fault class of the attempt in progress
+  std::vector<long long> attemptRecvs;           // per attempt: receiveSync calls of the receive loop (the zero-timeout probe not counted)
+  long long probes = 0;
+  // the lease wait (`_cv` of the client): distinct absolute deadlines asked for, number of waits entered, first entry / deadline
+  std::mutex leaseMx;
+  std::set<long long> leaseDeadlines;
+  std::atomic<long long> leaseWaitCalls{0};
+  std::atomic<long long> leaseFirstV{-1}, leaseFirstDl{-1};
   std::vector<long long> attemptTw;              // per attempt: length of the wait that ended by time-out (0 = none)
   std::vector<std::set<long long>> attemptWaits; // per attempt: distinct lengths of the timed waits asked for
   void noteWait(long long ms)
@@ -239,6 +257,15 @@ static ReqCtx* reqCtx()
   return nullptr;
 }
 static void beginAttempt(ReqCtx& cx, int idx);
+static void c17NoteRecv(long long timeoutMs)
+{
+  ReqCtx* cx = reqCtx();
+  if (!cx) return;
+  if (timeoutMs == 0) { cx->probes++; return; }
+  std::size_t i = static_cast<std::size_t>(cx->attempt < 0 ? 0 : cx->attempt);
+  if (cx->attemptRecvs.size() <= i) cx->attemptRecvs.resize(i + 1, 0);
+  cx->attemptRecvs[i]++;
+}
 
 
 // A timed wait against the virtual clock: wait in short real slices; report a time-out only when the VIRTUAL deadline
@@ -251,6 +278,18 @@ extern "C" int pthread_cond_clockwait(pthread_cond_t* c, pthread_mutex_t* m, clo
   long long vdl = abs->tv_sec * 1000000000LL + abs->tv_nsec;
   long long vn = virtNowNs();
   ReqCtx* rc_ = reqCtx();
+  bool leaseWait = false;
+  if (rc_ && rc_->client && c == rc_->client->_cv.native_handle())
+  {
+    leaseWait = true;
+    // the lease wait of acquireLease: a wait re-entered after a wake-up must keep the SAME absolute deadline
+    {
+      std::lock_guard<std::mutex> g(rc_->leaseMx);
+      rc_->leaseDeadlines.insert(vdl);
+    }
+    if (rc_->leaseFirstV.load() < 0) { rc_->leaseFirstDl = vdl; rc_->leaseFirstV = vn; }
+    rc_->leaseWaitCalls++;
+  }
   if (rc_)
   {
     if (vdl != rc_->lastDeadline)
@@ -265,7 +304,7 @@ extern "C" int pthread_cond_clockwait(pthread_cond_t* c, pthread_mutex_t* m, clo
       // class L ("another caller holds the lease"): this wait can only end by its time-out; the clock starts to run 5 ms from now
       if (rc_->curCls == 'L' && ms > 0 && !rc_->par) { g_waitEpisodeStartReal = realMonoNs(); g_wantTimeout = true; }
     }
-    else if (realMonoNs() - rc_->episodeStartReal > 1000000000LL && !g_wantTimeout.load())
+    else if (realMonoNs() - rc_->episodeStartReal > 1000000000LL && !g_wantTimeout.load() && !g_manualClock.load() && !(leaseWait && rc_->par))
     {
       // Nothing has happened for 1 s of REAL time (several nominal time-outs): whatever the script said, the peer is
       // silent for this caller — let the virtual clock run so that the wait ends by its own time-out.
@@ -283,6 +322,17 @@ extern "C" int pthread_cond_clockwait(pthread_cond_t* c, pthread_mutex_t* m, clo
   struct timespec rts;
   toTs(realMonoNs() + slice, &rts);
   int rc = real(c, m, CLOCK_MONOTONIC, &rts);
+  // Class L outside `par`/`contend` ("another caller holds the lease", nobody will release it): no spurious wake-ups are injected into
+  // this wait — it stays here until a real notification or its VIRTUAL deadline. (A lease wait that re-arms its time-out at every
+  // wake-up would otherwise be kept alive by the 1 ms slices for as long as the real-time watchdog allows; wake-ups of a lease waiter
+  // are exercised deterministically by `contend`.)
+  while (rc == ETIMEDOUT && leaseWait && rc_ && !rc_->par && rc_->curCls == 'L' && virtNowNs() < vdl)
+  {
+    long long left = (vdl - virtNowNs()) * g_scale.load(std::memory_order_relaxed);
+    if (left > 1000000LL) left = 1000000LL;
+    toTs(realMonoNs() + (left > 0 ? left : 0), &rts);
+    rc = real(c, m, CLOCK_MONOTONIC, &rts);
+  }
   // a real notification (something happened: data, a close, a released lease): the caller may compute its next deadline now —
   // the clock must stand still while it does (see warperLoop)
   if (rc == 0 && rc_) g_waitEpisodeStartReal = realMonoNs();
@@ -330,7 +380,8 @@ static void realSleepUs(long us)
 }
 
 // ---- connect / send -------------------------------------------------------------------------------------------------
-static std::atomic<int> g_serverPort{0}, g_blackholePort{0};
+static std::atomic<int> g_serverPort{0}, g_serverPort2{0}, g_blackholePort{0};
+static bool isSrvPort(int p) { return p != 0 && (p == g_serverPort.load() || p == g_serverPort2.load()); }
 static std::atomic<bool> g_refuse{false}, g_blackhole{false};
 static std::atomic<long long> g_forwardedConnects{0}; // connects that really went to the scripted server
 static std::mutex g_wireMx;
@@ -343,7 +394,7 @@ extern "C" int connect(int fd, const struct sockaddr* addr, socklen_t len)
   if (addr && addr->sa_family == AF_INET && len >= sizeof(sockaddr_in))
   {
     const sockaddr_in* in = reinterpret_cast<const sockaddr_in*>(addr);
-    if (ntohs(in->sin_port) == g_serverPort.load() && g_serverPort.load() != 0)
+    if (isSrvPort(ntohs(in->sin_port)))
     {
       n_connect_seen++;
       if (g_refuse.load())
@@ -387,7 +438,7 @@ extern "C" ssize_t send(int fd, const void* buf, size_t n, int flags)
     sockaddr_in peer{};
     socklen_t pl = sizeof(peer);
     if (getpeername(fd, reinterpret_cast<sockaddr*>(&peer), &pl) == 0 && peer.sin_family == AF_INET &&
-        ntohs(peer.sin_port) == g_serverPort.load())
+        isSrvPort(ntohs(peer.sin_port)))
     {
       sockaddr_in me{};
       socklen_t ml = sizeof(me);
@@ -429,6 +480,9 @@ struct Server
   std::vector<std::shared_ptr<ConnStat>> conns; // guarded by mx
   int lfd = -1;
   int port = 0;
+  int lfd2 = -1;             // a second listening port of the same scripted server (another host:port key for the client)
+  int port2 = 0;
+  std::map<long long, int> parSeen;                   // guarded by mx: X-Req-Id -> complete requests with that id that arrived (par mode)
   int bhfd = -1;
   std::vector<int> bhFill;
   std::thread acceptor;
@@ -640,6 +694,7 @@ struct Server
         int h = in.find("\r\nHost: localhost") != std::string::npos ? 1 : 0;
         std::lock_guard<std::mutex> g(mx);
         f = Fault{};
+        parSeen[id]++;
         auto it = parScripts.find(id);
         if (it != parScripts.end())
         {
@@ -706,10 +761,10 @@ struct Server
     t_harnessThread = true;
     while (!stop.load())
     {
-      struct pollfd p{lfd, POLLIN, 0};
-      int pr = ::poll(&p, 1, 20);
+      struct pollfd p[2] = {{lfd, POLLIN, 0}, {lfd2, POLLIN, 0}};
+      int pr = ::poll(p, lfd2 >= 0 ? 2 : 1, 20);
       if (pr <= 0) continue;
-      int fd = ::accept4(lfd, nullptr, nullptr, SOCK_CLOEXEC);
+      int fd = ::accept4((p[0].revents & POLLIN) ? lfd : lfd2, nullptr, nullptr, SOCK_CLOEXEC);
       if (fd < 0) continue;
       int one = 1;
       setsockopt(fd, IPPROTO_TCP, TCP_NODELAY, &one, sizeof(one));
@@ -759,6 +814,20 @@ struct Server
     socklen_t al = sizeof(a);
     getsockname(lfd, reinterpret_cast<sockaddr*>(&a), &al);
     port = ntohs(a.sin_port);
+    lfd2 = ::socket(AF_INET, SOCK_STREAM | SOCK_CLOEXEC, 0);
+    if (lfd2 >= 0)
+    {
+      sockaddr_in a2{};
+      a2.sin_family = AF_INET;
+      a2.sin_addr.s_addr = htonl(INADDR_LOOPBACK);
+      a2.sin_port = 0;
+      setsockopt(lfd2, SOL_SOCKET, SO_REUSEADDR, &one, sizeof(one));
+      socklen_t al2 = sizeof(a2);
+      if (::bind(lfd2, reinterpret_cast<sockaddr*>(&a2), sizeof(a2)) != 0 || ::listen(lfd2, 128) != 0 ||
+          getsockname(lfd2, reinterpret_cast<sockaddr*>(&a2), &al2) != 0)
+        return false;
+      port2 = ntohs(a2.sin_port);
+    }
     // black hole: a listener whose accept queue is full drops further SYNs
     bhfd = ::socket(AF_INET, SOCK_STREAM | SOCK_CLOEXEC, 0);
     sockaddr_in b{};
@@ -784,6 +853,7 @@ struct Server
       if (holed) g_blackholePort = ntohs(b.sin_port);
     }
     g_serverPort = port;
+    g_serverPort2 = port2;
     acceptor = std::thread([this] { acceptLoop(); });
     return true;
   }
@@ -793,6 +863,7 @@ struct Server
     if (acceptor.joinable()) acceptor.join();
     for (int i = 0; i < 200 && liveHandlers.load() > 0; ++i) realSleepUs(5000);
     if (lfd >= 0) ::close(lfd);
+    if (lfd2 >= 0) ::close(lfd2);
     for (int fd : bhFill) ::close(fd);
     if (bhfd >= 0) ::close(bhfd);
   }
@@ -907,6 +978,7 @@ struct SpyEngine : detail::EngineBase
 static Server g_srv;
 static SpyEngine* g_spy = nullptr;
 static long long g_reqSeq = 0;
+static std::map<std::string, std::string> g_callerHeaders; // `hdr`: extra request header fields the caller supplies (cleared by `reset`)
 static std::size_t g_origSyncBuf = 0;
 static const long long IDLE_S = 1000000;       // connectionIdleTimeout of the client under test (virtual seconds)
 static long long g_requestTimeoutMs = 400;
@@ -930,7 +1002,7 @@ static void warperLoop()
   {
     // The clock is advanced only once the requesting thread has been inside ONE timed wait for 5 ms of real time: what the server
     // wrote before it fell silent must reach the client first (every delivery ends the wait and starts a new one).
-    if (g_wantTimeout.load() && !g_realtime.load() && realMonoNs() - g_waitEpisodeStartReal.load() > 5000000LL)
+    if (g_wantTimeout.load() && !g_realtime.load() && !g_manualClock.load() && realMonoNs() - g_waitEpisodeStartReal.load() > 5000000LL)
     {
       g_voff += 20LL * 1000000LL; // +20 ms virtual
       g_warps++;
@@ -956,7 +1028,9 @@ struct ClientBox
   std::unique_ptr<HttpClient> client;
   SpyEngine* spy = nullptr;
   std::size_t origSyncBuf = 0;
+  bool dead = false;           // cleanup() was called on it: its transport is stopped for good; `reset` builds a new one
 };
+static std::atomic<bool> g_clientDead{false};
 static std::map<std::tuple<bool, std::size_t, long long, long long, long long>, ClientBox> g_boxes;
 
 static long long g_connectTimeoutMs = 170, g_leaseTimeoutMs = 250;
@@ -967,6 +1041,12 @@ static void makeClient(bool reuse, std::size_t cap, long long leaseMs, long long
   g_connectTimeoutMs = connectMs;
   g_leaseTimeoutMs = leaseMs;
   auto key = std::make_tuple(reuse, cap, leaseMs, requestMs, connectMs);
+  g_clientDead = false;
+  for (auto bi = g_boxes.begin(); bi != g_boxes.end();)
+  {
+    if (bi->second.dead) { g_clientPtr = nullptr; g_spy = nullptr; bi = g_boxes.erase(bi); } // ~HttpClient: cleanup() once more, harmless
+    else ++bi;
+  }
   auto it = g_boxes.find(key);
   if (it == g_boxes.end())
   {
@@ -1030,7 +1110,7 @@ static TransportConfig& tcfg() { return g_clientPtr->_transport->_impl->config; 
 static bool quiescent()
 {
   if (g_srv.accepted.load() < g_forwardedConnects.load()) return false;
-  if (g_spy && !g_spy->engineDoneWithClosed()) return false;
+  if (g_spy && !g_clientDead.load() && !g_spy->engineDoneWithClosed()) return false;
   std::vector<std::shared_ptr<ConnStat>> cs;
   {
     std::lock_guard<std::mutex> g(g_srv.mx);
@@ -1231,6 +1311,7 @@ static bool parseFault(const std::string& tok, Fault& f)
 
 static std::string hostPortOf(int hostIdx)
 {
+  if (hostIdx == 2) return "127.0.0.1:" + std::to_string(g_srv.port2);
   return std::string(hostIdx == 1 ? "localhost" : "127.0.0.1") + ":" + std::to_string(g_srv.port);
 }
 
@@ -1251,7 +1332,7 @@ static std::string doRequest(const std::string& entry, const std::string& method
   ReqCtx cx;
   cx.script = std::move(script);
   cx.client = g_clientPtr;
-  cx.hostPort = hostPortOf(urlKind == 1 ? 1 : 0);
+  cx.hostPort = hostPortOf(urlKind == 1 ? 1 : (urlKind == 5 ? 2 : 0));
   long long seq = ++g_reqSeq;
   {
     std::lock_guard<std::mutex> g(g_srv.mx);
@@ -1265,11 +1346,17 @@ static std::string doRequest(const std::string& entry, const std::string& method
     std::lock_guard<std::mutex> g(g_spy->mx);
     callMark = g_spy->calls.size();
   }
+  // url kinds: 0 = 127.0.0.1:P, 1 = localhost:P, 2 = https://127.0.0.1:P, 3 = 127.0.0.1:(P + 65536) (the uint16_t cast of parseUrl wraps
+  // it to P), 4 = a port beyond `int` (std::stoi throws std::out_of_range), 5 = 127.0.0.1:P2 (second port), 9 = not a URL
+  std::string portText = urlKind == 3 ? std::to_string(static_cast<long long>(g_srv.port) + 65536)
+                       : urlKind == 4 ? std::string("99999999999")
+                       : urlKind == 5 ? std::to_string(g_srv.port2) : std::to_string(g_srv.port);
   std::string url = urlKind == 9 ? std::string("not a url")
                                  : std::string(urlKind == 2 ? "https://" : "http://") + std::string(urlKind == 1 ? "localhost" : "127.0.0.1") + ":" +
-                                     std::to_string(g_srv.port) + "/r" + std::to_string(seq) + "?q=1";
+                                     portText + "/r" + std::to_string(seq) + "?q=1";
   std::string body(bodyLen, 'b');
   std::map<std::string, std::string> headers{{"X-Req-Id", std::to_string(seq)}};
+  for (auto& kv : g_callerHeaders) headers[kv.first] = kv.second;
   long long v0 = virtNowNs(), r0 = realMonoNs();
   g_opDeadlineReal = r0 + 45LL * 1000000000LL;
   beginAttempt(cx, 0);
@@ -1319,6 +1406,7 @@ static std::string doRequest(const std::string& entry, const std::string& method
   catch (const HttpFramingError&) { res = "err:framing"; }
   catch (const HttpRequestNotSentError&) { res = "err:notsent"; }
   catch (const std::invalid_argument&) { res = "err:invalid"; }
+  catch (const std::out_of_range&) { res = "err:other"; } // std::stoi in parseUrl: a class the retry loop knows only as std::exception
   catch (const std::logic_error&) { res = "err:harness"; }
   catch (const std::runtime_error& e)
   {
@@ -1341,8 +1429,18 @@ static std::string doRequest(const std::string& entry, const std::string& method
     long long v = static_cast<std::size_t>(i) < cx.attemptTw.size() ? cx.attemptTw[static_cast<std::size_t>(i)] : 0;
     o << (i ? "," : "") << (v > 0 ? std::to_string(v) : std::string("-"));
   }
+  // per attempt: did the receive loop call receiveSync at all (`0` = never: the attempt ended before the loop)
+  o << " rz=";
+  for (int i = 0; i < attempts; ++i)
+    o << (i ? "," : "") << ((static_cast<std::size_t>(i) < cx.attemptRecvs.size() && cx.attemptRecvs[static_cast<std::size_t>(i)] > 0) ? "+" : "0");
   // ---- monitor-only part
   std::ostringstream mo;
+  {
+    std::string rc;
+    for (int i = 0; i < attempts; ++i)
+      rc += (i ? "," : "") + std::to_string(static_cast<std::size_t>(i) < cx.attemptRecvs.size() ? cx.attemptRecvs[static_cast<std::size_t>(i)] : 0);
+    mo << "rc=" << (rc.empty() ? "-" : rc) << " probes=" << cx.probes << " ";
+  }
   {
     std::lock_guard<std::mutex> g(g_wireMx);
     int n = 0;
@@ -1413,7 +1511,7 @@ static std::string cacheState()
     std::lock_guard<std::mutex> lock(g_clientPtr->_mutex);
     for (auto& [hp, e] : g_clientPtr->_connections)
     {
-      int h = hp == hostPortOf(0) ? 0 : (hp == hostPortOf(1) ? 1 : 7);
+      int h = hp == hostPortOf(0) ? 0 : (hp == hostPortOf(1) ? 1 : (hp == hostPortOf(2) ? 2 : 7));
       int ord = g_sidOrd.count(e.id) ? g_sidOrd[e.id] : 0;
       items.push_back("h" + std::to_string(h) + "#" + std::to_string(ord));
     }
@@ -1535,6 +1633,165 @@ static std::string doPar(std::vector<ParThread>& th)
   return o.str();
 }
 
+// ---- three callers, deterministic in virtual time (seeded change C17-d) ----------------------------------------------------
+// contend <lease ms> <step ms> <n>: T1 holds host X (127.0.0.1:P) behind a peer that takes the request and stays silent; T2 asks
+// for X and blocks in acquireLease (leaseAcquireTimeout = <lease>, configured by the preceding `reset`); T3 (this thread) completes
+// <n> exchanges with the healthy host Y (localhost:P), advancing the VIRTUAL clock by <step> ms before each — every releaseLease of
+// Y does notify_all on the client's single condition variable and wakes T2. The clock moves only when this operation moves it.
+// Compared with the model: the results, the round in which T2's lease wait ended, the engine calls per caller. Monitors: T2 keeps
+// ONE absolute deadline over all its wake-ups, its wait lasts <lease> (+ one step) of virtual time, its request never reaches X.
+static std::string kindsOf(std::size_t mark, int tid)
+{
+  std::lock_guard<std::mutex> g(g_spy->mx);
+  std::string s;
+  for (std::size_t i = mark; i < g_spy->calls.size(); ++i)
+    if (g_spy->calls[i].tid == tid) s += (s.empty() ? "" : ",") + std::string(1, g_spy->calls[i].k);
+  return s.empty() ? "-" : s;
+}
+
+static std::string doContend(long long leaseMs, long long stepMs, int n)
+{
+  std::size_t mark;
+  {
+    std::lock_guard<std::mutex> g(g_spy->mx);
+    mark = g_spy->calls.size();
+  }
+  // an id space of its own: the running number of `req` operations (which the generator predicts) is not consumed
+  static long long contendSeq = 1000000000LL;
+  const long long id1 = ++contendSeq, id2 = ++contendSeq;
+  {
+    std::lock_guard<std::mutex> g(g_srv.mx);
+    g_srv.parScripts.clear();
+    g_srv.parAttempt.clear();
+    g_srv.parSeen.clear();
+    Fault silent;
+    silent.cls = 'T';
+    silent.resp = "x";
+    silent.j = 0;
+    silent.respAct = 's'; // the whole request is read, nothing is ever answered
+    g_srv.parScripts[id1] = {silent};
+    g_srv.cur = Fault{};
+  }
+  g_srv.parMode = true;
+  g_manualClock = true;
+  g_wantTimeout = false;
+  setScale(1000000); // real time no longer moves the virtual clock noticeably (1 s real = 1 µs virtual)
+  g_opDeadlineReal = realMonoNs() + 90LL * 1000000000LL;
+  auto seen = [&](long long id) {
+    std::lock_guard<std::mutex> g(g_srv.mx);
+    auto it = g_srv.parSeen.find(id);
+    return it == g_srv.parSeen.end() ? 0 : it->second;
+  };
+  const std::string base = ":" + std::to_string(g_srv.port);
+  struct Caller
+  {
+    ReqCtx cx;
+    std::string res, body;
+    std::atomic<bool> done{false};
+    std::atomic<long long> endV{0};
+    std::thread th;
+  };
+  auto run = [&](Caller& c, int tid, const std::string& method, const std::string& url, long long id) {
+    c.cx.par = true;
+    c.cx.client = g_clientPtr;
+    c.th = std::thread([&c, tid, method, url, id] {
+      t_tid = tid;
+      t_ctx = &c.cx;
+      int status = 0;
+      std::map<std::string, std::string> headers{{"X-Req-Id", std::to_string(id)}};
+      std::string r = classify(
+        [&](std::string& body) {
+          auto resp = g_clientPtr->performRequest(method, url, "", headers, 0);
+          status = resp.statusCode;
+          body = vh::toHex(resp.body);
+        },
+        c.body);
+      c.endV = virtNowNs();
+      t_ctx = nullptr;
+      c.res = r.empty() ? "ok:" + std::to_string(status) : r;
+      c.done = true;
+    });
+  };
+  Caller t1, t2;
+  run(t1, 1, "POST", "http://127.0.0.1" + base + "/c" + std::to_string(id1), id1);
+  for (int i = 0; i < 40000 && seen(id1) == 0 && !t1.done.load(); ++i) realSleepUs(250); // T1 holds X's lease and has sent its request
+  run(t2, 2, "GET", "http://127.0.0.1" + base + "/c" + std::to_string(id2), id2);
+  for (int i = 0; i < 40000 && t2.cx.leaseWaitCalls.load() == 0 && !t2.done.load(); ++i) realSleepUs(250); // T2 is inside the lease wait
+  int round = 0, ok3 = 0;
+  {
+    ReqCtx cx3;
+    cx3.par = true;
+    cx3.client = g_clientPtr;
+    for (int i = 1; i <= n; ++i)
+    {
+      const long long callsBefore = t2.cx.leaseWaitCalls.load();
+      g_voff += stepMs * 1000000LL;
+      const long long id3 = ++contendSeq;
+      t_tid = 3;
+      t_ctx = &cx3;
+      std::string body;
+      std::string r = classify(
+        [&](std::string& b) {
+          std::map<std::string, std::string> headers{{"X-Req-Id", std::to_string(id3)}};
+          auto resp = g_clientPtr->performRequest("GET", "http://localhost" + base + "/c" + std::to_string(id3), "", headers, 0);
+          if (resp.statusCode == 200) ok3++;
+          b = "";
+        },
+        body);
+      t_ctx = nullptr;
+      t_tid = 0;
+      // T2 has looked at the clock again since the advance: it either finished or has entered a third wait since
+      for (int k = 0; k < 20000 && !t2.done.load() && t2.cx.leaseWaitCalls.load() < callsBefore + 3; ++k) realSleepUs(250);
+      if (t2.done.load() && round == 0) round = i;
+    }
+  }
+  if (round == 0) round = n + 1;
+  // let T1's silent peer run into requestTimeout; a T2 that is still waiting (broken lease wait) then gets the lease and talks to X
+  for (int k = 0; k < 40000 && !(t1.done.load() && t2.done.load()); ++k)
+  {
+    g_voff += (g_requestTimeoutMs + leaseMs + 50) * 1000000LL;
+    realSleepUs(2000);
+  }
+  t1.th.join();
+  t2.th.join();
+  g_opDeadlineReal = 0;
+  setScale(50);
+  g_wantTimeout = false;
+  g_manualClock = false;
+  g_srv.parMode = false;
+  waitAccepted();
+  // so that the numbering of sessions by creation order stays complete for later operations
+  {
+    std::lock_guard<std::mutex> g(g_spy->mx);
+    for (std::size_t i = mark; i < g_spy->calls.size(); ++i)
+      if (g_spy->calls[i].k == 'c' && !g_sidOrd.count(g_spy->calls[i].sid)) g_sidOrd[g_spy->calls[i].sid] = g_nextSidOrd++;
+  }
+  std::vector<std::string> hosts;
+  std::size_t leased;
+  {
+    std::lock_guard<std::mutex> lock(g_clientPtr->_mutex);
+    for (auto& [hp, e] : g_clientPtr->_connections)
+      hosts.push_back(hp == hostPortOf(0) ? "h0" : (hp == hostPortOf(1) ? "h1" : (hp == hostPortOf(2) ? "h2" : "h7")));
+    leased = g_clientPtr->_leasedHosts.size();
+  }
+  std::sort(hosts.begin(), hosts.end());
+  std::string hs;
+  for (auto& h : hosts) hs += (hs.empty() ? "" : ",") + h;
+  std::size_t nDeadlines;
+  {
+    std::lock_guard<std::mutex> g(t2.cx.leaseMx);
+    nDeadlines = t2.cx.leaseDeadlines.size();
+  }
+  const long long waitMs = t2.cx.leaseFirstV.load() < 0 ? 0 : (t2.endV.load() - t2.cx.leaseFirstV.load()) / 1000000LL;
+  const long long askedMs = t2.cx.leaseFirstV.load() < 0 ? 0 : (t2.cx.leaseFirstDl.load() - t2.cx.leaseFirstV.load() + 999999LL) / 1000000LL;
+  std::ostringstream o;
+  o << "t1=" << t1.res << "/" << (t1.cx.attempt + 1) << "/" << kindsOf(mark, 1) << " t2=" << t2.res << "/" << (t2.cx.attempt + 1) << "/"
+    << kindsOf(mark, 2) << " round=" << round << " t3=" << ok3 << "/" << kindsOf(mark, 3) << " cache=" << (hs.empty() ? "-" : hs)
+    << " leased=" << leased << " | t2wait=" << waitMs << " t2asked=" << askedMs << " t2deadlines=" << nDeadlines << " t2wakes=" << t2.cx.leaseWaitCalls.load()
+    << " t2wire=" << seen(id2) << " lease=" << leaseMs << " step=" << stepMs;
+  return o.str();
+}
+
 int main()
 {
   iora::core::Logger::setLevel(iora::core::Logger::Level::Fatal);
@@ -1557,6 +1814,7 @@ int main()
         makeClient(a != 0, static_cast<std::size_t>(b), static_cast<long long>(c), static_cast<long long>(d), static_cast<long long>(e));
         g_sidOrd.clear();
         g_nextSidOrd = 1;
+        g_callerHeaders.clear();
         {
           std::lock_guard<std::mutex> g(g_srv.mx);
           g_srv.nextOrd = 1;
@@ -1616,6 +1874,45 @@ int main()
         }
         return doPar(th);
       }
+      if (t.size() == 3 && t[0] == "hdr")
+      {
+        // a header field the CALLER passes with every following request (e.g. its own `Connection: close`): executeRequest copies
+        // it into the request after its own fields; it must not change the retry / reuse decisions
+        Bytes n, v;
+        if (!vh::ofHex(t[1], n) || !vh::ofHex(t[2], v) || n.empty()) return "bad-op";
+        g_callerHeaders[std::string(n.begin(), n.end())] = std::string(v.begin(), v.end());
+        return "ok";
+      }
+      if (t.size() == 1 && t[0] == "cleanup" && g_clientPtr)
+      {
+        // HttpClient::cleanup() on the client under test: afterwards it is dead for good (`reset` builds a new one)
+        std::size_t mark;
+        {
+          std::lock_guard<std::mutex> g(g_spy->mx);
+          mark = g_spy->calls.size();
+        }
+        g_clientPtr->cleanup();
+        g_clientDead = true;
+        g_ioThreadId = std::thread::id(); // the engine's I/O thread is gone; its id may be recycled for a thread std::async creates
+        for (auto& kv : g_boxes)
+          if (kv.second.client.get() == g_clientPtr) kv.second.dead = true;
+        std::vector<std::string> xs;
+        {
+          std::lock_guard<std::mutex> g(g_spy->mx);
+          for (std::size_t i = mark; i < g_spy->calls.size(); ++i)
+          {
+            auto& c = g_spy->calls[i];
+            xs.push_back(std::string(1, c.k) + std::to_string(g_sidOrd.count(c.sid) ? g_sidOrd[c.sid] : 0));
+          }
+        }
+        std::sort(xs.begin(), xs.end());
+        std::string s;
+        for (auto& x : xs) s += (s.empty() ? "" : ",") + x;
+        return "ev=" + (s.empty() ? std::string("-") : s) + " " + cacheState();
+      }
+      if (t.size() == 4 && t[0] == "contend" && g_clientPtr && vh::parseNat(t[1], a) && vh::parseNat(t[2], b) && vh::parseNat(t[3], c) &&
+          a > 0 && b > 0 && c <= 200 && static_cast<long long>(a) == g_leaseTimeoutMs)
+        return doContend(static_cast<long long>(a), static_cast<long long>(b), static_cast<int>(c));
       if (t.size() == 3 && t[0] == "rrc")
       {
         // responseRequestsClose on a response with the given Connection field (~ = absent) and HTTP version
